@@ -25,6 +25,7 @@ type Ctx struct {
 	cReach     *Reach
 	entryReach map[string]*Reach
 	signers    map[string][]string
+	passed     map[*ssa.Function]bool
 	callers    map[*ssa.Function][]CallSite
 }
 
